@@ -2,11 +2,12 @@
 # usage: tools/seedcheck.sh <PROP> [name]  -- confirms a seeded change from /tmp/seed/<name> in its worktree /tmp/wt/<name>, then runs our checks against it
 P=$1; N=${2:-$1}; WT=/tmp/wt/$N; S=/tmp/seed/$N; OUT=/verif/seeded/$N; mkdir -p $OUT
 cd $WT || exit 9
+git checkout -q -- . ; git apply $S/patch.diff || { echo "PATCH DOES NOT APPLY IN WORKTREE"; exit 8; }
 echo "== [$N] existing suite with the change"; cmake --build _b -j16 >/dev/null 2>&1; ctest --test-dir _b -j8 --timeout 900 2>&1 | tail -3 | tee $OUT/ctest_with_change.txt
 echo "== demo with the change (must fail)"; bash $S/build_demo.sh $WT > $OUT/demo_with_change.txt 2>&1; echo "exit=$?" | tee -a $OUT/demo_with_change.txt; tail -3 $OUT/demo_with_change.txt
-git stash -q; cmake --build _b -j16 >/dev/null 2>&1
+git apply -R $S/patch.diff; cmake --build _b -j16 >/dev/null 2>&1
 echo "== demo without the change (must pass)"; bash $S/build_demo.sh $WT > $OUT/demo_without_change.txt 2>&1; echo "exit=$?" | tee -a $OUT/demo_without_change.txt; tail -2 $OUT/demo_without_change.txt
-git stash pop -q; cmake --build _b -j16 >/dev/null 2>&1
+git apply $S/patch.diff; cmake --build _b -j16 >/dev/null 2>&1
 cp $S/patch.diff $S/demo.cpp $S/build_demo.sh $S/notes.md $OUT/ 2>/dev/null
 cd /verif
 git -C /repo apply $S/patch.diff || { echo "PATCH DOES NOT APPLY"; exit 8; }
